@@ -29,7 +29,13 @@ def conv_case(geo, rng, res):
     ci, co, kh, kw, sh, sw, ph, pw, H, W, B, bias = geo
     case = dict(kind='conv', ci=ci, co=co, kernel=(kh, kw), stride=(sh, sw), padding=(ph, pw), H=H, W=W, B=B, bias=bias)
     g = torch.Generator().manual_seed(rng.randrange(2 ** 31))
-    conv = torch.nn.Conv2d(ci, co, (kh, kw), (sh, sw), (ph, pw), bias=bias).double()
+    pad_arg = (ph, pw)
+    if (sh, sw) == (1, 1) and rng.random() < 0.3:
+        # torch's string paddings are zero paddings too: 'valid' = none, 'same' = dilation*(k-1) zeros per dimension
+        pad_arg = rng.choice(['same', 'valid'])
+        case['padding'] = pad_arg
+        H, W = max(H, kh), max(W, kw)
+    conv = torch.nn.Conv2d(ci, co, (kh, kw), (sh, sw), pad_arg, bias=bias).double()
     with torch.no_grad():
         for p in conv.parameters():
             p.copy_(torch.randn(p.shape, generator=g, dtype=torch.float64))
@@ -41,7 +47,14 @@ def conv_case(geo, rng, res):
     y.backward(go)
     h = Conv2dModuleHelper(conv)
     res.count('conv_checks')
-    P = F.unfold(x, (kh, kw), padding=(ph, pw), stride=(sh, sw))  # B, D, S
+    P = rm.conv_patches(x, conv).transpose(1, 2) if isinstance(pad_arg, str) else F.unfold(x, (kh, kw), padding=(ph, pw), stride=(sh, sw))  # B, D, S
+    if isinstance(pad_arg, str):
+        # the reference patches of a string padding are the harness's own reading of torch's rule: they must reproduce the convolution
+        res.count('string_padding_cases')
+        yref = torch.einsum('bds,od->bos', P, conv.weight.detach().reshape(co, -1)).reshape(y.shape) + (conv.bias.detach().view(1, -1, 1, 1) if bias else 0)
+        if not torch.allclose(yref, y.detach(), rtol=1e-9, atol=1e-9):
+            res.inconclusive.append('harness: reference patches of a string padding do not reproduce the convolution')
+            return
     gg = go.reshape(B, co, -1)
     exp = torch.einsum('bos,bds->od', gg, P)
     if bias:
@@ -161,6 +174,12 @@ def linear_case(rng, res):
         for p in lin.parameters():
             p.copy_(torch.randn(p.shape, generator=g, dtype=torch.float64))
     x = torch.randn(*lead, fi, generator=g, dtype=torch.float64) * torch.arange(1, fi + 1, dtype=torch.float64)
+    if len(lead) >= 2 and rng.random() < 0.4:
+        # a transposed activation (sequence-first <-> batch-first): the helper is handed a NON-contiguous tensor
+        x = x.transpose(0, 1)
+        lead = list(x.shape[:-1])
+        case['lead'], case['layout'] = lead, 'transposed'
+        res.count('non_contiguous_linear_inputs')
     y = lin(x.clone().requires_grad_(True))
     go = torch.randn(y.shape, generator=g, dtype=torch.float64)
     y.backward(go)
